@@ -30,6 +30,8 @@ fn send_internal<T: Send>(
     return Err(value);
   }
   let node = slab.bump();
+  #[cfg(all(loom, excsn_fibre_verif))]
+  crate::internal::verif_shadow::write(unsafe { (*node).val.get() } as usize); // verification seam H10
   unsafe { *(*node).val.get() = Some(value) };
   shared.publish(node, node);
   shared.record_sent(shard, 1);
